@@ -117,6 +117,15 @@ def av_contract(cfg):
     c.bounded("read_beat_i_returns_content_of_address_plus_i", lambda f: Implies(
         And(rdv(f), G(f, "rd_left") != 0, G(f, "rd_addr") == VA), byte_at(f(b.readdata), lane, nbw) == G(f, "spec")))
     c.bounded("write_data_present_when_memory_takes_it", lambda f: Implies(f.b(port.wdata.ready), f.b(port.wdata.valid)))
+    # a write changes only what accepted beats name: no native write command without an accepted write beat behind it
+    r_down = max(1, ww // pw)
+    CW = 8
+    wacc_port = lambda f: And(f.b(port.cmd.valid), f.b(port.cmd.ready), f.b(port.cmd.we))
+    wbeat = lambda f: And(wr(f), Not(wait(f)))
+    c.ghost("avm.n_beats", CW, 0, lambda f: G(f, "n_beats") + If_(wbeat(f), BV(r_down, CW), BV(0, CW)))
+    c.ghost("avm.n_wcmds", CW, 0, lambda f: G(f, "n_wcmds") + If_(wacc_port(f), BV(1, CW), BV(0, CW)))
+    c.bounded("no_native_write_without_an_accepted_write_beat", lambda f: ULE(
+        G(f, "n_wcmds") + If_(wacc_port(f), BV(1, CW), BV(0, CW)), G(f, "n_beats") + If_(wbeat(f), BV(r_down, CW), BV(0, CW))))
     c.cover("read_hit_after_write_hit", lambda f: And(rdv(f), G(f, "rd_addr") == VA, G(f, "rd_left") != 0,
                                                        G(f, "spec") != init), within=cfg.get("depth", 16))
     c.cover("burst_write_second_beat", lambda f: next_w(f), within=10)
